@@ -255,6 +255,7 @@ CLAIM = {
             "of five declarations (negative and fractional bounds, int and float): in range, typed, monotone, endpoints, gene "
             "independence. _prepare_routes and Strategy._init_objects are interpreted for eight one- and two-route scenarios of "
             "explicit / dna() / default hyperparameters and each route's hp compared with the precedence the property states. "
-            "Not decided: int parameters with non-integer bounds.",
+            "IEEE guard: the float branch of dna_to_hp must bound its result by the declared range (the affine map overshoots in doubles). "
+            "Not decided: int parameters with non-integer bounds; exact equality of the last letter with max in floating point.",
     "note": "Trusted: interpreter semantics; exact rational arithmetic.",
 }
